@@ -200,6 +200,19 @@ func drivePlugin(cfg *hx.RunCfg) error {
 					be.drain()
 					got, err := u.do(rg.req, 20*time.Second)
 					if err != nil {
+						// no answer at all: once more on a fresh connection, reported when it fails again
+						st.dist["exchange-retried"]++
+						u.close()
+						time.Sleep(50 * time.Millisecond)
+						be.drain()
+						if u, err = pr.dial(localIP, rt.domain); err == nil {
+							got, err = u.do(rg.req, 20*time.Second)
+						} else {
+							pr.close()
+							return fmt.Errorf("dial plugin %s: %v", kind, err)
+						}
+					}
+					if err != nil {
 						st.fail("impl:plugin-exchange-failed", fmt.Sprintf("%s: %v (%s %s)", kind, err, rg.req.method, rg.req.target), rg.req.target)
 						break
 					}
@@ -237,7 +250,7 @@ func drivePlugin(cfg *hx.RunCfg) error {
 					if len(st.samples) < 2 && len(cs) < 2500 {
 						st.samples = append(st.samples, cs)
 					}
-					// the finding recorded as C02_plugin_http2http_forwarded_for_refuted, observed on the real plugin
+					// model-free monitor of C02_plugin_http2http_keeps_forwarded_for
 					if kind == v1.PluginHTTP2HTTP {
 						sentXFF := false
 						for _, kv := range rg.req.hdrs {
@@ -252,7 +265,8 @@ func drivePlugin(cfg *hx.RunCfg) error {
 							}
 						}
 						if sentXFF && !gotXFF {
-							st.dist["finding:http2http-drops-x-forwarded-for"]++
+							// repaired in /repo by a4afe3b; a regression is a failure
+							st.fail("impl:http2http-drops-x-forwarded-for", "http2http plugin: the backend received no X-Forwarded-For although the request carried one", cs[:min(len(cs), 600)])
 						}
 					}
 				}
